@@ -21,7 +21,7 @@ const (
 
 // C20: unlikely-content pruning applies only if enough content remains, else fallback.
 func C20(p *core.Program, r *core.Report) {
-	r.Explanation = "F1: decision-list conformance of ContentExtractor.ExtractContent: the first pass converts with SkipUnlikelies; iff its word count is <= 499 the document AND the word count both come from a second pass with Default, otherwise both come from the first pass (phis resolved per path). F2: each pass builds a new WebDocumentBuilder and DomConverter and Convert walks a deep clone of the untouched document element. F3: in the converter's element visitor every `return false` that depends on the SkipUnlikelies flag is guarded either by the role table or by the complete class/id test (unlikely pattern, not the ok-maybe pattern, not below a table, not body, not a); the patterns and the role table are read nowhere else in the module."
+	r.Explanation = "F6: in the element visitor every call of the document builder for an element node is reachable only through the test of the SkipUnlikelies flag (must-pass-through), so no element is emitted ahead of the unlikely tests. F1: decision-list conformance of ContentExtractor.ExtractContent: the first pass converts with SkipUnlikelies; iff its word count is <= 499 the document AND the word count both come from a second pass with Default, otherwise both come from the first pass (phis resolved per path). F2: each pass builds a new WebDocumentBuilder and DomConverter and Convert walks a deep clone of the untouched document element. F3: in the converter's element visitor every `return false` that depends on the SkipUnlikelies flag is guarded either by the role table or by the complete class/id test (unlikely pattern, not the ok-maybe pattern, not below a table, not body, not a); the patterns and the role table are read nowhere else in the module."
 	r.NotCovered = "the metamorphic equalities themselves (result equals that of the page with the subtrees deleted / markers renamed); what the regular expressions match; marked elements swallowed whole by figure/table extraction."
 
 	// ---- F1
@@ -165,6 +165,48 @@ func C20(p *core.Program, r *core.Report) {
 			}
 		}
 		r.Add("F3", "two flag-dependent skips (class/id and role)", p.Pos(ve.Pos()), nFlagReturns == 2, fmt.Sprintf("%d returns depend on the flag", nFlagReturns))
+		// F6: nothing of an element reaches the builder before the flag has been looked at: an
+		// element emitted (as an embed, a tag, a started node) ahead of the unlikely tests survives
+		// the first pass whatever its class, id or role says
+		{
+			flagIf := map[ssa.Instruction]bool{}
+			cn := core.NewCanon(p)
+			for _, b := range ve.Blocks {
+				if len(b.Instrs) == 0 {
+					continue
+				}
+				if ifi, ok := b.Instrs[len(b.Instrs)-1].(*ssa.If); ok {
+					if atom, _ := cn.CondAtom(ifi.Cond); reFlag.MatchString(atom) {
+						flagIf[ifi] = true
+					}
+				}
+			}
+			// element nodes only: text nodes are handed over on the other side of the node-type test
+			cutText, _ := core.CutAtoms(p, ve, regexp.MustCompile(q(`$1.Type == html.TextNode`)), true)
+			n, bad := 0, 0
+			var wit []string
+			for _, in := range instrsOf(ve) {
+				call, ok := in.(*ssa.Call)
+				if !ok || !call.Call.IsInvoke() {
+					continue
+				}
+				if nm := core.NamedOf(call.Call.Value.Type()); nm == nil || nm.Obj().Name() != "DocumentBuilder" {
+					continue
+				}
+				if !core.InstrReachable(ve, cutText, in) {
+					continue
+				}
+				n++
+				if ok2, _ := core.MustPassThrough(ve, in, func(x ssa.Instruction) bool { return flagIf[x] }, cutText); !ok2 {
+					bad++
+					if len(wit) < 3 {
+						wit = append(wit, fmt.Sprintf("%s at %s", call.Call.Method.Name(), p.Pos(in.Pos())))
+					}
+				}
+			}
+			r.Add("F6", "an element reaches the builder only after the SkipUnlikelies flag was tested", p.Pos(ve.Pos()), n >= 5 && bad == 0 && len(flagIf) >= 1,
+				fmt.Sprintf("%d builder calls for element nodes, %d reachable without passing the flag test", n, bad), wit...)
+		}
 		// readers of the patterns / role table
 		for _, g := range []struct{ name, content string }{{"the unlikely-candidates pattern", rxUnlikely}, {"the ok-maybe pattern", rxOkMaybe}, {"the unlikely-roles table", unlikelyRoleSet}} {
 			users := globalReaderFuncs(p, core.ExpandKey(converterPkg), g.content)
